@@ -514,6 +514,53 @@ class F:
         dfs(g.entry, [], frozenset(), {})
         return out
 
+    def region_paths(self, start_edge: Edge, stops: Iterable[int], limit: int = 512):
+        """Acyclic paths that start by taking `start_edge` and end when they reach a node of `stops` (or an exit):
+        (literals, nodes on the path, end node); literals are (positive atom text with locals expanded, truth)."""
+        g = self.g
+        stops = set(stops) | {g.exit, g.raise_exit}
+        out = []
+
+        def dfs(n, lits, path):
+            if len(out) > limit:
+                raise ValueError("too many paths")
+            if n in stops:
+                out.append((list(lits), list(path), n))
+                return
+            if n in path:
+                return  # inner cycle: ignore (inner loops are summarised by their own iteration)
+            node = g.nodes[n]
+            for b, lab in g.succ[n]:
+                if lab in ("exc", "assert"):
+                    continue
+                l2 = lits
+                if node.kind == "test" and lab in ("T", "F"):
+                    a, neg = M.polarity(self.xe_at(n, node.exprs[0]))
+                    key = norm(a)
+                    truth = (lab == "T") != neg
+                    if any(k == key and tv != truth for k, tv in lits):
+                        continue
+                    if not any(k == key for k, tv in lits):
+                        l2 = lits + [(key, truth)]
+                dfs(b, l2, path + [n])
+
+        for h in self.heads([start_edge]):
+            dfs(h, [], [])
+        return out
+
+    def condition_of(self, start_edge: Edge, stops: Iterable[int], through: Iterable[int]) -> ast.AST:
+        """The condition (as an expression over the atoms tested on the way) under which a path from start_edge to
+        `stops` passes one of the nodes `through`: the disjunction of the literal sets of those paths."""
+        through = set(through)
+        terms = []
+        for lits, nodes, end in self.region_paths(start_edge, stops):
+            if through & set(nodes):
+                parts = [M.pat(k) if tv else ast.UnaryOp(op=ast.Not(), operand=M.pat(k)) for k, tv in lits]
+                terms.append(ast.Constant(value=True) if not parts else parts[0] if len(parts) == 1 else ast.BoolOp(op=ast.And(), values=parts))
+        if not terms:
+            return ast.Constant(value=False)
+        return terms[0] if len(terms) == 1 else ast.BoolOp(op=ast.Or(), values=terms)
+
     def witness(self, dst: int, nodes: Iterable[int] = (), src: Optional[int] = None) -> List[str]:
         return self.g.path_text(self.g.find_path(dst, avoid=set(nodes), src=src))
 
